@@ -461,8 +461,53 @@ def c09(ctx):
         ctx.model("c09-refresh", dict(DATA33, MaxSend=2, MaxFlight=3, MaxTick=2, MaxQuery=1), inv, timeout=2400)
 
 
+def ratchet_unbounded(ctx):
+    """Ratchet.tla: the bound on the tables indexed by key-id pairs is an inductive invariant for unbounded key ids
+    (Apalache); a mutant without the pruning must fail (non-vacuity).  The module is bound to OTR.tla by the
+    action property RatchetRefines (TLC) and to the code by the trace property of OTRTrace.tla."""
+    import re as _re
+    d = os.path.join(ctx.work, "apalache")
+    os.makedirs(d, exist_ok=True)
+    src = open(os.path.join(vlib.SPEC, "Ratchet.tla")).read()
+    open(os.path.join(d, "Ratchet.tla"), "w").write(src)
+    mut = src.replace("MODULE Ratchet", "MODULE RatchetMut").replace("!.ctrs = {c \\in @ : c[1] >= a1.oid}, ", "")
+    if mut.count("c[1] >= a1.oid"):
+        raise Broken("Ratchet.tla mutant could not be made")
+    open(os.path.join(d, "RatchetMut.tla"), "w").write(mut)
+    runs = [("Ratchet.tla", "IndInit", "IndInv", 1, True), ("Ratchet.tla", "Init", "IndInv", 0, True), ("Ratchet.tla", "IndInit", "SizeInv", 0, True),
+            ("RatchetMut.tla", "IndInit", "IndInv", 1, False)]
+
+    def one(r):
+        mod, init, inv, length, expect = r
+        out = os.path.join(d, "out-%s-%s-%s" % (mod, init, inv))
+        try:
+            p = subprocess.run(["apalache-mc", "check", "--init=" + init, "--inv=" + inv, "--length=%d" % length, "--out-dir=" + out, "--run-dir=" + out, mod],
+                               cwd=d, capture_output=True, text=True, timeout=900)
+            txt = p.stdout + p.stderr
+        except subprocess.TimeoutExpired:
+            raise Broken("apalache timed out on %s %s" % (mod, inv))
+        ok = "The outcome is: NoError" in txt
+        bad = "The outcome is: Error" in txt
+        if not ok and not bad:
+            raise Broken("apalache did not decide %s %s/%s:\n%s" % (mod, init, inv, txt[-1500:]))
+        return r, ok
+    from concurrent.futures import ThreadPoolExecutor
+    with ThreadPoolExecutor(2) as ex:
+        res = list(ex.map(one, runs))
+    for (mod, init, inv, length, expect), ok in res:
+        ctx.model_runs.append(dict(name="apalache/%s/%s=>%s" % (mod, init, inv), tool="apalache-mc 0.58 (symbolic, unbounded integers)", length=length,
+                                   outcome="NoError" if ok else "Error", expect="NoError" if expect else "Error (mutant without pruning: non-vacuity)"))
+        if ok != expect:
+            raise Broken("Ratchet.tla: %s --init=%s --inv=%s gave %s" % (mod, init, inv, "NoError" if ok else "Error"))
+    log("[apalache] Ratchet.tla: inductive invariant holds (Init => IndInv, IndInv /\\ Next => IndInv', IndInv => SizeInv); mutant rejected")
+    ctx.extra_cov["ratchet_inductive_invariant"] = "proved by Apalache for unbounded key ids; OTR.tla refines Ratchet.tla (TLC, RatchetRefines); every observed step is a Ratchet step (trace property)"
+
+
 def c19(ctx):
     inv = ["SizeBound"]
+    ratchet_unbounded(ctx)
+    ctx.model("c19-refines", dict(DATA33, MaxSend=2 if ctx.quick() else 3, MaxFlight=2, MaxQuery=1, MaxEnd=1), [], ["RatchetRefines"])
+    ctx.model("c19-refines-bag", dict(DATA33, NetMode="bag", MaxSend=2, MaxFlight=2, MaxDup=1, MaxDrop=1, MaxAtk=1), [], ["RatchetRefines"])
     if ctx.quick():
         ctx.model("c19-3x3", dict(DATA33, MaxSend=3, MaxFlight=3), inv)
         ctx.model("c19-bag", dict(DATA33, NetMode="bag", MaxSend=2, MaxFlight=2, MaxDup=2, MaxDrop=1), inv)
